@@ -436,13 +436,15 @@ def make_direction_check(stats, links_of=None, h=1e-5, max_coords=60, rnd=None):
             if not (np.isfinite(dp) and np.isfinite(dm)):
                 stats["nonfinite"] += 1
                 continue
-            if abs(dp - dm) > 1e-3 * max(1.0, abs(dp), abs(dm)):
+            # the two one-sided differences must agree closely: a kink (ReLU, TV tie, transport basis change) or rounding noise
+            # (saturated predictions: the score is a square root of a near-zero quantity) makes the coordinate unjudgeable
+            if abs(dp - dm) > 1e-5 + 1e-3 * max(abs(dp), abs(dm)):
                 stats["kinks"] += 1
                 continue
             want = -0.5 * (dp + dm)                 # the optimiser minimises: direction = -(d objective / d theta)
             got = float(np.asarray(grads[a])[idx])
             stats["judged"] += 1
-            if abs(got - want) > 1e-4 * max(1.0, abs(want)) + 1e-6:
+            if abs(got - want) > 1e-4 * max(1.0, abs(want)) + 1e-6 + 10 * abs(dp - dm):
                 ok = False
                 stats["bad"].append(dict(array=a, index=[int(v) for v in idx], handed=got, expected=want,
                                          shape=list(p.shape), step=rec.t))
